@@ -97,6 +97,11 @@ pub fn c04_alphabet(n: usize, len: usize) -> Vec<Act> {
             }
         }
     }
+    v.extend(steps_probes(n, len, &[0, 1, 4], 2));
+    v.extend(steps_probes(n, len, &[2, 5], 1));
+    for mm in 0..=n.min(3) {
+        v.push(Act::IntoIterCloneFrom(len.min(1), mm, mm.min(1)));
+    }
     v
 }
 
@@ -469,6 +474,18 @@ pub fn c07_state<const N: usize>(recipe: &Recipe) -> Vec<Problem> {
                     let w: Vec<(u32, usize)> = want_r.iter().step_by(2).copied().collect();
                     if g != w {
                         out.push(pb(PKind::Views, format!("range({}..{}).step_by(2) gives {:?} expected {:?}", a, bb, g, w)));
+                    }
+                    for k in 0..=l + 1 {
+                        let g: Vec<(u32, usize)> = b.range(a..bb).rev().skip(k).map(loc).collect();
+                        let w: Vec<(u32, usize)> = want_r.iter().rev().skip(k).copied().collect();
+                        if g != w {
+                            out.push(pb(PKind::Views, format!("range({}..{}).rev().skip({}) gives {:?} expected {:?}", a, bb, k, g, w)));
+                        }
+                    }
+                    let g: Vec<(u32, usize)> = b.range(a..bb).rev().step_by(2).map(loc).collect();
+                    let w: Vec<(u32, usize)> = want_r.iter().rev().step_by(2).copied().collect();
+                    if g != w {
+                        out.push(pb(PKind::Views, format!("range({}..{}).rev().step_by(2) gives {:?} expected {:?}", a, bb, g, w)));
                     }
                     let g: Vec<(u32, usize)> = b.range(a..bb).rev().map(loc).collect();
                     let w: Vec<(u32, usize)> = want_r.iter().rev().copied().collect();
@@ -970,10 +987,35 @@ pub fn c08_check<const N: usize>(o: &Opts, rep: &mut Report) {
             }
         }
     }
+    // the same sources driven through nth / nth_back as well (an override of those is part of the protocol),
+    // and clone_from between two owning iterators
+    for (i, st) in sp.states.iter().enumerate() {
+        if !o.mine(i) {
+            continue;
+        }
+        let mut acts = steps_probes(N, st.len, &[0, 1, 2, 3, 4], 3);
+        for a in 0..=st.len.min(2) {
+            for mm in 0..=N.min(6) {
+                for b in 0..=mm.min(2) {
+                    acts.push(Act::IntoIterCloneFrom(a, mm, b));
+                }
+            }
+        }
+        for act in acts {
+            let tr = transition::<N>(&st.recipe, &[], &act, None);
+            account(rep, st, &act, &tr);
+            for p in tr.problems.iter().filter(|p| matches!(p.kind, PKind::Trace | PKind::PanicMismatch | PKind::Contents | PKind::Views)) {
+                record(rep, N, &st.recipe, &[], &act, None, p, "");
+            }
+        }
+    }
     finish_space(rep, &sp);
 }
 
 pub fn replay_c08<const N: usize>(c: &Case) -> Result<i32, String> {
+    if c.act.starts_with("steps(") || c.act.starts_with("into_iter_clone_from(") {
+        return crate::checks::replay_generic::<N>(c, &[PKind::Trace, PKind::PanicMismatch, PKind::Contents, PKind::Views]);
+    }
     let recipe = Recipe::parse(&c.ctor, &c.recipe).ok_or("bad recipe")?;
     if c.act == "iter-default" {
         let mut it: circular_buffer::Iter<'static, E> = Default::default();
@@ -1047,6 +1089,9 @@ pub fn c09_check<const N: usize>(o: &Opts, rep: &mut Report) {
                     };
                     let mut acts: Vec<Act> = scripts.iter().map(|s| Act::Drain(rs, *s, Fin::Drop)).collect();
                     if k == 0 {
+                        for st in Steps::all_up_to(if N > 8 { 2 } else { 3 }) {
+                            acts.push(Act::StepsOn(5, rs, st));
+                        }
                         acts.extend(Script::all_up_to((b - a).min(if N > 8 { 3 } else { usize::MAX })).into_iter().map(|s| Act::DrainDebug(rs, s)));
                     }
                     for act in acts {
@@ -1096,6 +1141,16 @@ pub fn c12_check<const N: usize>(o: &Opts, rep: &mut Report) {
         let mut acts = vec![Act::CloneBuf, Act::ToVec, Act::IntoIter(Script::all_front(st.len + 1)), Act::IntoIter(Script::all_back(st.len + 1))];
         for s in Script::all_up_to(st.len.min(3)) {
             acts.push(Act::IntoIterClone(s));
+        }
+        for mm in 0..=N {
+            for rot in [0, N.saturating_sub(1)] {
+                acts.push(Act::ExtendFromBuf(mm, rot));
+            }
+            for a in 0..=st.len.min(2) {
+                for b in 0..=mm.min(2) {
+                    acts.push(Act::IntoIterCloneFrom(a, mm, b));
+                }
+            }
         }
         // clone_from: every destination state x every source layout
         for m in 0..=N {
